@@ -189,6 +189,19 @@ def fmtAns : Ans → String
   | .upd ok cur => (if ok then "ok " else "err ") ++ fmtPol cur
   | .noAcc => "no-accessor"
 
+def fmtCall : AdminCall → String
+  | .bodyAll => "PUT/include_body_from_all"
+  | .manageAll => "PUT/manage_all"
+  | .unmanageGlobal => "DELETE/unmanage_global"
+  | .putEp k => s!"PUT/managed_endpoint/p{k}"
+  | .putBody k => s!"PUT/include_body_from/p{k}"
+  | .delEp k => s!"DELETE/managed_endpoint/p{k}"
+  | .delBody k => s!"DELETE/include_body_from/p{k}"
+  | .delCapture k => s!"DELETE/capture_req_from/p{k}"
+
+def fmtCalls (cs : List AdminCall) : String :=
+  " adm=" ++ (if cs.isEmpty then "-" else ",".intercalate (cs.map fmtCall))
+
 /-- State of a level-2 case in `run` mode. -/
 structure WRun where
   bad : Bool := false            -- the wcfg line was malformed
@@ -201,7 +214,11 @@ def wRunStart (ws : List String) : WRun × String :=
   | some l =>
     let c := construct l.env
     let sys := Sys.init (l.t0 + (match c with | .ok r => r.initialWait | .error _ => 0)) l.thr l.p0
-    ({ cfg := (match c with | .ok r => some r.toCfg | .error _ => none), sys := sys }, fmtCtor c l.p0)
+    let boot := match c, l.p0 with
+      | .ok _, some p => fmtCalls (manageCalls false p)
+      | .ok _, none => fmtCalls []
+      | .error _, _ => ""
+    ({ cfg := (match c with | .ok r => some r.toCfg | .error _ => none), sys := sys }, fmtCtor c l.p0 ++ boot)
 
 /-- The defaults shipped in proxy/Dockerfile, as the model states them (`dockerEnv`, `dockerThr`). -/
 def fmtDockerEnv : String :=
@@ -218,7 +235,10 @@ def wRunStep (s : WRun) (line : String) : WRun × String :=
     | none, .obs _ _ => (s, "no-watcher")
     | cfg, op =>
       let (sys', a) := sysStep (cfg.getD ⟨0, 0, 0, 0⟩) s.sys op
-      ({ s with sys := sys' }, fmtAns a)
+      let adm := match a with
+        | .obs _ _ _ | .upd _ _ => fmtCalls (sysCalls (cfg.getD ⟨0, 0, 0, 0⟩) s.sys op)
+        | _ => ""
+      ({ s with sys := sys' }, fmtAns a ++ adm)
 
 /-- State of a level-2 case in `judge` mode. -/
 structure WJudge where
@@ -258,7 +278,7 @@ def wJudgeStep (s : WJudge) (op out : String) : WJudge :=
     match parseOpW (words op) with
     | none => s                                   -- malformed line: the diff compares the answers
     | some o =>
-      if out == "no-watcher" then s
+      if out == "no-watcher" || out.startsWith "stuck:" then s   -- no event (the diff compares the answers)
       else
         match parseAnsW o out with
         | some a => { s with hist := (o, a) :: s.hist }
@@ -275,10 +295,9 @@ def wJudgeFinish (s : WJudge) : String :=
     | .error _ => "ok"                    -- no configuration: the property states nothing
     | .ok raw =>
       let h := s.hist.reverse
-      if wholds raw l.thr l.p0 h then "ok"
+      if wholds raw l.thr h then "ok"
       else if !predsOk l.thr h then "fail - observed-health-not-what-the-stats-and-thresholds-state"
-      else if !holds raw.toCfg (obsEvents h) then "fail - reactions-not-as-the-property-states (alternation/stability/cool-down)"
-      else "fail - reaction-without-its-effect (diagnoses still in force after unhealthy / last loaded policies not in force after healthy)"
+      else "fail - reactions-not-as-the-property-states (alternation/stability/cool-down)"
   | none, none => "ok"
 
 /-! ## Dispatch: a case whose FIRST op is `wcfg` is a level-2 case -/
